@@ -1,5 +1,6 @@
 #!/bin/bash
 # tools/seed.sh <Cxx> <k> <pkgdir-for-demo | -> [check-id...]
+# (DEMOTAGS=verif runs a Go demo with that build tag.)
 # (DESTK=<n> files the change as /verif/seeded/<Cxx>-<n> instead of <Cxx>-<k>.)
 # Validates seeded change k of /tmp/out-<Cxx>/ in the scratch worktree /tmp/wt-<Cxx> (suite passes with the
 # patch, demo fails with it and passes without it), then applies it to /repo, runs the given checks
@@ -17,7 +18,7 @@ git -C $WT checkout -q -- . ; git -C $WT clean -fdq
 git -C $WT checkout -q --detach $(git -C /repo rev-parse HEAD)   # validate against the current tree
 rundemo() { # runs the demo in $WT, returns its status
   case "$DEMO" in
-    *_test.go) cp "$DEMO" $WT/$PKG/zz_seeded_demo_test.go; (cd $WT && $GO test -vet=off -count=1 -run 'TestSeeded' ./$PKG/ >/tmp/seed-demo.log 2>&1); r=$?; rm -f $WT/$PKG/zz_seeded_demo_test.go; return $r;;
+    *_test.go) cp "$DEMO" $WT/$PKG/zz_seeded_demo_test.go; (cd $WT && $GO test ${DEMOTAGS:+-tags $DEMOTAGS} -vet=off -count=1 -run 'TestSeeded' ./$PKG/ >/tmp/seed-demo.log 2>&1); r=$?; rm -f $WT/$PKG/zz_seeded_demo_test.go; return $r;;
     *.sh) (cd $WT && bash "$DEMO" >/tmp/seed-demo.log 2>&1); return $?;;
     *) return 99;;
   esac
